@@ -10,6 +10,7 @@ EXTENDS Grammar, ProgFamilies, Json
 
 FA == INSTANCE Faults
 LI == INSTANCE Lint
+PA == INSTANCE Parser WITH SuffixUsesStaleLine <- FALSE
 
 CONSTANT Family
 VARIABLE c
@@ -205,6 +206,45 @@ PoeticDigits(t) ==      \* the digits the first statement's poetic literal spell
   LET s == t[1][1]
       e == IF s.s = "pnum" THEN s.e ELSE IF s.s = "rock" /\ s.vals # <<>> THEN s.vals[1] ELSE ENone
   IN IF e.e = "plit" THEN PO!Digits(e.elems) ELSE [ip |-> <<>>, fp |-> <<>>]
+-----------------------------------------------------------------------------
+(* RoundTrip (C02 on the model): the recogniser model (Lexer.tla + Parser.tla) reads every rendering back as the tree it was  *)
+(* rendered from.  Both trees are brought to a common form: names as case-folded keys, no line fields.                     *)
+KeyFor(nm, n) == IF nm = <<>> THEN NMS!Key(n) ELSE NMS!Key(nm[n][1])      \* nm = <<>> : n is already a concrete name
+RECURSIVE NormE(_, _)
+RECURSIVE NormS(_, _)
+NormEs(es, nm) == [i \in 1..Len(es) |-> NormE(es[i], nm)]
+NormB(ss, nm) == [i \in 1..Len(ss) |-> NormS(ss[i], nm)]
+NormE(e, nm) ==
+  CASE e.e = "var" -> [e |-> "var", n |-> KeyFor(nm, e.n)]
+    [] e.e = "idx" -> [e |-> "idx", a |-> NormE(e.a, nm), k |-> NormE(e.k, nm)]
+    [] e.e = "call" -> [e |-> "call", f |-> KeyFor(nm, e.f), args |-> NormEs(e.args, nm)]
+    [] e.e = "roll" -> [e |-> "roll", a |-> NormE(e.a, nm)]
+    [] e.e = "un" -> [e |-> "un", op |-> e.op, x |-> NormE(e.x, nm)]
+    [] e.e = "bin" -> [e |-> "bin", op |-> e.op, l |-> NormE(e.l, nm), r |-> NormEs(e.r, nm)]
+    [] OTHER -> e
+NormS(s, nm) ==
+  CASE s.s = "assign" -> [s |-> "assign", dest |-> NormE(s.dest, nm), op |-> s.op, vals |-> NormEs(s.vals, nm)]
+    [] s.s = "pnum" -> [s |-> "pnum", dest |-> NormE(s.dest, nm), e |-> NormE(s.e, nm)]
+    [] s.s = "pstr" -> [s |-> "pstr", dest |-> NormE(s.dest, nm), str |-> s.str]
+    [] s.s = "if" -> [s |-> "if", c |-> NormE(s.c, nm), th |-> NormB(s.th, nm), hasElse |-> s.hasElse, el |-> NormB(s.el, nm)]
+    [] s.s \in {"while", "until"} -> [s |-> s.s, c |-> NormE(s.c, nm), body |-> NormB(s.body, nm)]
+    [] s.s \in {"inc", "dec"} -> [s |-> s.s, dest |-> NormE(s.dest, nm), n |-> s.n]
+    [] s.s = "listen" -> [s |-> "listen", dest |-> NormE(s.dest, nm)]
+    [] s.s \in {"say", "return"} -> [s |-> s.s, e |-> NormE(s.e, nm)]
+    [] s.s = "mut" -> [s |-> "mut", op |-> s.op, operand |-> NormE(s.operand, nm), dest |-> NormE(s.dest, nm), param |-> NormE(s.param, nm)]
+    [] s.s = "turn" -> [s |-> "turn", dir |-> s.dir, e |-> NormE(s.e, nm)]
+    [] s.s \in {"break", "continue"} -> [s |-> s.s]
+    [] s.s = "rock" -> [s |-> "rock", a |-> NormE(s.a, nm), vals |-> NormEs(s.vals, nm)]
+    [] s.s = "rollst" -> [s |-> "rollst", a |-> NormE(s.a, nm), dest |-> NormE(s.dest, nm)]
+    [] s.s = "func" -> [s |-> "func", name |-> KeyFor(nm, s.name), ps |-> [i \in 1..Len(s.ps) |-> KeyFor(nm, s.ps[i])], body |-> NormB(s.body, nm)]
+    [] s.s = "callst" -> [s |-> "callst", f |-> KeyFor(nm, s.f), args |-> NormEs(s.args, nm)]
+NormP(bs, nm) == [i \in 1..Len(bs) |-> NormB(bs[i], nm)]
+
+RoundTrip ==
+  c.k \in {"text", "stripped"} =>
+    LET v == PA!Verdict(c.text)
+    IN v.ok /\ NormP(v.tree, <<>>) = NormP(c.tree, c.naming)
+
 Emit == c.k \in {"init", "tree", "e2epick"} \/
         (c.k = "e2e" /\ PrintT(<<"R", ToJson([fam |-> "e2e", text |-> c.text, naming |-> c.naming, tape |-> c.tape, lines |-> c.lines,
                                               inp |-> c.inp, budget |-> -1, failAt |-> 0, st |-> c.st, out |-> c.out, rd |-> c.rd,
